@@ -339,3 +339,9 @@ def code_specs():
         S("vbyte.io_write_%s" % v, dict(path="codes::vbyte::vbyte_write_%s" % v))
         S("vbyte.io_read_%s" % v, dict(path="codes::vbyte::vbyte_read_%s" % v))
     return out
+
+
+def find_change_specs():
+    fc = ("field", ("deref", SELF), "current")
+    return [Spec("find_change.next", dict(name="next", trait_is="std::iter::Iterator", impl_self="utils::find_change::FindChangePoints<"), [64], no_inv,
+                 group="find_change", doc="no precondition: any monotone function, any state")]
